@@ -191,8 +191,9 @@ class Ctx:
         self.solver.set("smt.mbqi", False)
         self.solver.set("timeout", task.branch_timeout_ms)
         self.qf = z3.Solver()
-        self.qf.set("timeout", 2000)
+        self.qf.set("timeout", 400)
         self.nquant = 0
+        self.synced = 0
         self.pc = []
         self.heap = Heap()
         self.heap0 = None
@@ -236,11 +237,6 @@ class Ctx:
         if z3.is_true(f):
             return
         self.pc.append(f)
-        self.solver.add(f)
-        if not has_quant(f):
-            self.qf.add(f)
-        else:
-            self.nquant += 1
 
     def fact(self, f):
         """assume a schema/type fact once."""
@@ -250,7 +246,20 @@ class Ctx:
         self.facts[key] = f      # keeps the term alive so its id cannot be reused
         self.assume(f)
 
+    def sync(self):
+        """push the path condition collected so far into the solvers (lazily: while a prefix is only replayed nothing is asked of
+        the solvers, and a merge-point reset discards everything before it)"""
+        while self.synced < len(self.pc):
+            f = self.pc[self.synced]
+            self.synced += 1
+            self.solver.add(f)
+            if not has_quant(f):
+                self.qf.add(f)
+            else:
+                self.nquant += 1
+
     def feasible(self, f):
+        self.sync()
         t0 = time.time()
         self.qf.push()
         self.qf.add(f)
@@ -303,8 +312,9 @@ class Ctx:
         self.solver.set("smt.mbqi", False)
         self.solver.set("timeout", self.task.branch_timeout_ms)
         self.qf = z3.Solver()
-        self.qf.set("timeout", 2000)
+        self.qf.set("timeout", 400)
         self.nquant = 0
+        self.synced = 0
         base = list(getattr(self, "base_pc", []))
         self.pc = []
         self.facts = {}
@@ -345,6 +355,7 @@ class Ctx:
         """An obligation that fails by construction on this (feasible) path, e.g. an unexpected exception."""
         if self.pos < self.given:
             return
+        self.sync()
         model = None
         r = self.solver.check()
         if r == z3.sat:
@@ -424,6 +435,22 @@ class Ctx:
             s = v.t.sort()
             if s == Val:
                 return v.t
+            # a value that was unboxed from a Val term goes back as that very term (its type fact is re-asserted), which keeps
+            # constructor/accessor round trips out of the queries
+            if z3.is_app(v.t) and v.t.num_args() == 1 and v.t.arg(0).sort() == Val:
+                d, x = v.t.decl(), v.t.arg(0)
+                if s == S and d.eq(Val.s):
+                    self.fact(Val.is_strv(x))
+                    return x
+                if s == I and v.ty == "int" and d.eq(Val.i):
+                    self.fact(Val.is_intv(x))
+                    return x
+                if s == I and v.ty != "int" and d.eq(Val.r):
+                    self.fact(Val.is_ref(x))
+                    return x
+                if s == B and d.eq(Val.b):
+                    self.fact(Val.is_boolv(x))
+                    return x
             if s == I:
                 if v.ty == "int":
                     return Val.intv(v.t)
